@@ -2,7 +2,7 @@
    Proved here: the sender-side mechanisms (staleness test, resend flag, dead references); that each
    Unreliable/TimeSensitive fragment occurs at most once in the emitted frames is checked on the
    implementation's frames by the oracle and through the model correspondence (see DESIGN.md). *)
-From UF Require Import Consts Base Frame Codec Sender Heap FrameQueue HalfConn HcLemmas ResendKept HcTotal EmitRefs.
+From UF Require Import Consts Base Frame Codec Sender Heap FrameQueue HalfConn HcLemmas ResendKept HcTotal EmitRefs TsEpoch.
 
 (* a packet leaves the send queue with the next sequence id, never as a stale TimeSensitive packet, and is
    marked for retransmission exactly when its mode is Persistent or Reliable *)
@@ -84,5 +84,45 @@ Theorem C12_finalize_logs_recorded_refs :
     fq_push (h_fq (es_h e)) (len (build_data_frame (ip_seq f) (ip_nonce f) (ip_enc f) (ip_count f))) (h_now (es_h e)) (ip_refs f) (ip_nonce f) /\
   es_out (dfe_finalize e) = es_out e ++ [build_data_frame (ip_seq f) (ip_nonce f) (ip_enc f) (ip_count f)].
 Proof. exact dfe_finalize_logs_recorded_refs. Qed.
+
+(* ---------- TimeSensitive packets and flush epochs (TsEpoch.v) ---------- *)
+Theorem C12_send_stamps_epoch :
+  forall h d c m,
+  s_queue (h_snd (hc_send h d c m)) = s_queue (h_snd h) ++ [mkSendEntry d c m (h_flush_id h)] /\
+  h_flush_id (hc_send h d c m) = h_flush_id h.
+Proof. exact send_stamps_epoch. Qed.
+
+Theorem C12_step_next_epoch :
+  forall h now h', hc_step h now = Ok h' -> h_flush_id h' = add32 (h_flush_id h) 1 /\ h_snd h' = h_snd h.
+Proof. exact step_next_epoch. Qed.
+
+(* the only place that takes packets off the send queue: what it removes in front of the packet it hands out is
+   TimeSensitive and of another epoch; a TimeSensitive packet is handed out only in the epoch it was stamped with *)
+Theorem C12_time_sensitive_epoch :
+  forall s fid s' uid r, sender_emit_packet s fid = (s', Some (uid, r)) ->
+  exists dropped e rest,
+    s_queue s = dropped ++ e :: rest /\ s_queue s' = rest /\ Forall (stale_ts fid) dropped /\
+    (se_mode e = TimeSensitive -> se_flush e = fid) /\ r = is_resend (se_mode e) /\
+    exists we, nth_error (s_win s') (length (s_win s)) = Some we /\ pp_data (we_packet we) = se_data e.
+Proof. exact emit_packet_epoch. Qed.
+Print Assumptions C12_time_sensitive_epoch.
+
+Theorem C12_nothing_else_leaves_the_queue :
+  forall s fid s', sender_emit_packet s fid = (s', None) ->
+  exists dropped, s_queue s = dropped ++ s_queue s' /\ Forall (stale_ts fid) dropped.
+Proof. exact emit_packet_none. Qed.
+
+(* non-vacuity: a TimeSensitive packet flushed in the epoch of its send() goes out as a 19-byte frame; after one
+   more step() the flush emits nothing and the packet is gone from the queue *)
+Example C12_ts_epoch_run :
+  let c := mkHcConfig 4294967295 7 64 64 1048575 3 16 16 100000 100000 100000 None in
+  let h0 := fold_left hc_apply [OpStep 10; OpStep 300] (hc_new c 5) in
+  let fresh := hc_apply h0 (OpSend [1; 2; 3] 0 TimeSensitive) in
+  let stale := fold_left hc_apply [OpSend [1; 2; 3] 0 TimeSensitive; OpStep 400] h0 in
+  match hc_flush fresh, hc_flush stale with
+  | Ok (_, o1), Ok (h2, o2) => (map len o1, o2, len (s_queue (h_snd stale)), len (s_queue (h_snd h2))) = ([19], [], 1, 0)
+  | _, _ => False
+  end.
+Proof. vm_compute. reflexivity. Qed.
 
 Check C12_emit_packet.
